@@ -1,6 +1,7 @@
 package seq
 
 import (
+	"sync"
 	"bytes"
 	"context"
 	"crypto/ecdsa"
@@ -140,6 +141,12 @@ func (w *World) startLoad(in *Instance) {
 		}
 		in.log = l
 		in.logs = append(in.logs, l)
+		w.smu.Lock()
+		if w.muOwner == nil {
+			w.muOwner = map[*sync.Mutex][2]int{}
+		}
+		w.muOwner[l.VerifPoolMuAddr()] = [2]int{in.idx, inc}
+		w.smu.Unlock()
 		l.VerifCacheReadConn().SetTracer(&cacheTracer{w: w, in: in, inc: inc, l: l})
 		in.handler = l.Handler()
 		w.rootsAfterLoad(in)
@@ -226,6 +233,7 @@ type Submission struct {
 	Checked bool
 	PoolLenAfter, LowAfter int
 	prefill bool
+	admissionChecked bool
 	gotEntry *sunlight.LogEntry
 	sctRsp *ct.AddChainResponse
 	cacheEpoch int
